@@ -1,5 +1,5 @@
 """C05 — components: scope isolated, recursion bounded, one context builder (partial)."""
-from engine import (Tracer, EdgeFacts, find_calls, find_aggs, field_accesses, AnchorMissing, leaf_str, leaf_call_is, pl_projs)
+from engine import (Tracer, EdgeFacts, find_calls, find_aggs, field_accesses, AnchorMissing, leaf_str, leaf_call_is, pl_projs, callee_def)
 import rrec
 from props import c07
 
@@ -139,6 +139,30 @@ def check_same(crate, rep, cfg):
     ok = n1 >= 2 and n2 >= 1
     (rep.ok if ok else rep.bad)("C05.SAME", key, api.where(0), "the VM component call (%d sites) and Tera::render_component_to (%d) both obtain the component "
                                 "context from ComponentDefinition::build_context" % (n1, n2) + ("" if ok else " — VIOLATED"))
+    # lookup precedence: the VM consults the priority-resolved registry Tera.components first (as the API does) and falls back to the
+    # rendering template's own definitions only when the name is not registered (one-off templates)
+    from engine import TRANSPARENT_CALLS
+    bodies = crate.with_closures(interp)
+    primary, fallback = [], []
+    for b in bodies:
+        tr2 = Tracer(b, transparent=set(TRANSPARENT_CALLS))
+        for bb, t in b.calls():
+            cd = callee_def(t)
+            if not (cd.endswith("::get") or cd == "std::ops::Index::index"):
+                continue
+            leaves = tr2.operand(t["args"][0])
+            from props.c07 import resolve_upvars
+            leaves = resolve_upvars(crate, b, leaves, set(TRANSPARENT_CALLS))
+            for l in leaves:
+                if ".components" in l.projs:
+                    owner = "tera" if ".tera" in l.projs else ("template" if ".template" in l.projs else "?")
+                    (primary if cd.endswith("::get") else fallback).append(owner)
+    ok = bool(primary) and set(primary) == {"tera"} and set(fallback) <= {"template"}
+    rep.add("C05.SAME", "C05.SAME:lookup-precedence", ok, interp.where(0), "component lookup in the VM: Option-returning get() on Tera.components (priority-resolved at finalize, "
+            "what Tera::render_component uses) first, panicking index on Template.components only as fallback — found get on %s, index on %s" % (sorted(set(primary)), sorted(set(fallback)))
+            + ("" if ok else " — VIOLATED: a lower-priority local definition can shadow the highest-priority one; API and template call disagree"))
+    api_get = [1 for bb, t in api.calls() if callee_def(t).endswith("::get") and any(".components" in l.projs for l in Tracer(api).operand(t["args"][0]))]
+    rep.add("C05.SAME", "C05.SAME:api-uses-registry", bool(api_get), api.where(0), "Tera::render_component_to resolves the name in Tera.components" + ("" if api_get else " — VIOLATED"))
     # result minted safe in the VM (inserted in the caller's output without being escaped again)
     tr = Tracer(interp)
     n = 0
